@@ -142,7 +142,10 @@ impl<M: MemBuilder> AnyVecRaw<M> {
         where M::Mem: MemResizable
     {
         let new_len = cmp::max(self.len, min_capacity);
-        self.mem.resize(new_len);
+        // never grow
+        if new_len < self.capacity() {
+            self.mem.resize(new_len);
+        }
     }
 
     #[inline]
